@@ -61,6 +61,12 @@ def run(ctx):
   # that signature's own iteration (under `i in issuer_dlogs`), not inherited from an earlier signature through a reused entry
   from . import c16
   c16.rule_isolated(ctx, T.bodies(ctx.repo), "R-C02-SANITISE", lambda w_: w_.startswith("ecdsa_sig_checks:"))
+  # every reported log / relation is released only after Multiply(G, k) (or the comb BatchMultiplyG) reproduced the key: the claim is as good as
+  # those two multiplications (shared with C11)
+  from . import c11
+  ctx.borrow(c11.rule_scalar, "R-C02-VERIFY")
+  ctx.borrow(c11.rule_comb, "R-C02-VERIFY")
+  ctx.expect("R-C02-VERIFY", 6, "scalar multiplication + comb obligations")
   ctx.expect("R-C02-RELEASE", 5, "three BatchDL stores + two relation strings")
   ctx.expect("R-C02-CODEC", 2, "writer index and reader pair")
   ctx.expect("R-C02-ALIGN", 4, "four Check bodies")
@@ -226,9 +232,11 @@ def rule_codec(ctx):
   f, w = walk(repo, "ExtendedBatchDL")
   points = P("param", "points")
   npts = sym.mk("len", points)
-  stores = [e for e in w.events if e.kind == "store" and isinstance(e.data["target"].value, ast.Name)]
-  wr = [e for e in stores if e.data["target"].value.id == "all_points"]
-  rd = [e for e in stores if e.data["target"].value.id == "res"]
+  # writer / reader stores are recognised by what they store (a transformed point / a value derived from the batched search), not by variable names
+  stores = [e for e in w.events if e.kind == "store" and not isinstance(e.data["value"], (Seq, Const, tuple))]
+  wr = [e for e in stores if as_poly(e.data["value"]).as_atom() is not None and as_poly(e.data["value"]).as_atom().kind == "mcall"
+        and as_poly(e.data["value"]).as_atom().args[1] == lit("Multiply")]
+  rd = [e for e in stores if any(a.kind == "mcall" and a.args[1] == lit("BatchDL") for a in as_poly(e.data["value"]).all_atoms())]
   ok = bool(wr)
   why = []
   mult_sym = None
@@ -287,10 +295,34 @@ def rule_codec(ctx):
       why.append("value released without `dlog is not None`")
   ctx.record(R, f.where, "reader: res[k % num_points] = dlog * multipliers[k // num_points]", ok, "; ".join(sorted(set(why))) or "same stride; (dlog*m)*G = P for P of order n")
   # inverses paired position-wise with multipliers; BatchDL over all_points
-  src = ast.unparse(f.node)
-  ok = "inverses = [gmpy.invert(m, self.n) for m in multipliers]" in src and "for j, inverse in enumerate(inverses):" in src and "for i, point in enumerate(points):" in src
+  # every (i, j) pair is written: the stores sit in a loop over all points inside a loop over all multipliers (their inverses), no exits
+  ok = bool(wr) and mult_sym is not None
+  for e in wr:
+    loops_of = [i_ for i_ in w.loop_info.values() if any(x is e.node for x in ast.walk(i_["node"]))]
+    its = [as_poly(i_["iter"]).as_atom() for i_ in loops_of if not isinstance(i_["iter"], Seq) and i_["iter"] is not None]
+    over_points = any(a is not None and a.kind == "enumerate" and as_poly(a.args[0]) == points for a in its) or any(a is not None and a.kind == "range" and as_poly(a.args[-1]) == npts for a in its)
+    over_mults = any(a is not None and mult_sym is not None and repr(mult_sym) in repr(a) and a.kind in ("enumerate", "range", "map", "zip") for a in its)
+    exits = any(bp[0] in ("break", "return") for i_ in loops_of for bp in i_["body_paths"])
+    if not (over_points and over_mults) or exits:
+      ok = False
+  # the list searched by BatchDL is the list the writer filled
   calls = [e for e in w.events if e.kind == "call" and e.data["name"] == "meth:BatchDL"]
-  ok2 = bool(calls) and all("all_points" in repr(as_poly(e.data["args"][0])) for e in calls)
+  ok2 = bool(calls) and bool(wr)
+  for e in calls:
+    arg = as_poly(e.data["args"][0]) if e.data["args"] and not isinstance(e.data["args"][0], (Seq, Const, tuple)) else None
+    linked = False
+    for i_ in w.loop_info.values():
+      for vis in i_["visits"]:
+        for nm, sv in vis["after_env"].items():
+          if arg is not None and sv is not None and not isinstance(sv, (Seq, Const, tuple)) and as_poly(sv) == arg:
+            # nm is the written list if some writer store's base is a loop-head value of nm
+            for e2 in wr:
+              for i2 in w.loop_info.values():
+                for v2 in i2["visits"]:
+                  hv = v2["head"].env.get(nm)
+                  if hv is not None and not isinstance(hv, (Seq, Const, tuple)) and as_poly(hv) == as_poly(e2.data["base"]):
+                    linked = True
+    ok2 = ok2 and linked
   ctx.record(R, f.where, "inverses[j] = multipliers[j]^-1 mod n, searched list = all_points", ok and ok2, "position-wise pairing" if ok and ok2 else "pairing of inverses with multipliers changed")
 
 
